@@ -129,6 +129,8 @@ def run_naming(chk, tier, only=None, cfgs=None, release=False, tag="naming"):
         viol = None
         if o.get("panic"):
             viol = f"panic: {o['panic']}"
+        elif o.get("nested"):
+            viol = f"readout {o['nested'][0]['readout']}: {o['nested'][0]['what'][:600]}"
         elif len(exp) != len(o["readouts"]):
             viol = f"{len(o['readouts'])} readouts instead of {len(exp)}"
         else:
@@ -505,6 +507,8 @@ def run(prop, tier):
         "updates are logged per batch (start, n updates, end); a batch counts as started/ended as a whole (sound, coarser)",
         "histogram values are taken from 9 classes (0 .. u32::MAX, larger values capped) that are >1/16 apart, so a reported "
         "bucket identifies the recorded value; values from 2^31 on are compared in units of 1024 (TLC has 32-bit integers)",
+        "every readout of the sequential histories is also written after remove_timestamp() (same items and entry configuration "
+        "expected) and through a real Emf::all_validations formatter (must be accepted if the stand-alone readout is)",
         "gauge values are unique per call, except that one thread also sets gauges back to 0.0; a name is used for one metric kind only",
         "lonely-record rounds: rounds in which everything recorded had been reported after two trailing readouts are summed up in "
         "the trace; the first round where it had not is logged on its own (the harness only decides what to log in detail)",
